@@ -61,6 +61,11 @@ type toolPlan struct {
 	GoMaxProcs int `json:"gomaxprocs,omitempty"`
 	// NoLen: responses carry no length (as compressed or chunked deliveries do)
 	NoLen bool `json:"no_len,omitempty"`
+	// File times are part of the simulated disk: UpMtime (unix seconds, 0 = whatever the wall clock gives) is the
+	// modification time of every upstream file (the transport announces it as Last-Modified); PreDelta is added to
+	// it for everything that exists in the target directory before the run (older, equal or newer than upstream).
+	UpMtime  int64 `json:"up_mtime,omitempty"`
+	PreDelta int64 `json:"pre_delta,omitempty"`
 }
 
 func (p *toolPlan) faultRun() bool {
@@ -198,6 +203,21 @@ func (g *c17Engine) run(tp *toolPlan) (*toolVerdict, map[string]int, error) {
 		os.MkdirAll(wl, 0755)
 	}
 	stats := map[string]int{}
+	stamp := func(p string, delta int64) {
+		if tp.UpMtime != 0 {
+			t := time.Unix(tp.UpMtime+delta, 0)
+			os.Chtimes(p, t, t) // follows a symbolic link; a dangling one has nothing to stamp
+		}
+	}
+	if tp.UpMtime != 0 {
+		stats["runs_with_seeded_file_times"]++
+		switch {
+		case tp.PreDelta > 0:
+			stats["runs_with_targets_newer_than_upstream"]++
+		case tp.PreDelta < 0:
+			stats["runs_with_targets_older_than_upstream"]++
+		}
+	}
 	for l := 0; l < ref.NumLang; l++ {
 		name := ref.FileNames[l]
 		in := tp.Inputs[name]
@@ -208,6 +228,7 @@ func (g *c17Engine) run(tp *toolPlan) (*toolVerdict, map[string]int, error) {
 			if err := os.WriteFile(filepath.Join(up, name+".txt"), in.bytes(), 0644); err != nil {
 				return nil, nil, err
 			}
+			stamp(filepath.Join(up, name+".txt"), 0)
 		}
 		if tp.NoDir {
 			continue
@@ -236,12 +257,16 @@ func (g *c17Engine) run(tp *toolPlan) (*toolVerdict, map[string]int, error) {
 		default:
 			os.WriteFile(tgt, prestateContent(kind), 0644)
 		}
+		if kind != "" && kind != "absent" {
+			stamp(tgt, tp.PreDelta)
+		}
 	}
 	strays := map[string]bool{}
 	if !tp.NoDir {
 		for _, sname := range tp.Strays {
 			strays[sname] = true
 			os.WriteFile(filepath.Join(wl, sname), prestateContent("longer"), 0644)
+			stamp(filepath.Join(wl, sname), tp.PreDelta)
 			stats["stray_leftover_files"]++
 		}
 	}
@@ -590,6 +615,10 @@ func genToolPlan(seed uint64, i int) *toolPlan {
 			tp.NoDir = true
 		}
 	}
+	// file times: drawn from a generator of their own so that the rest of the plan is what it was before they existed
+	rt := plan.NewRand(seed ^ 0x7469_6d65_7374_616d)
+	tp.UpMtime = 1_600_000_000 + int64(rt.Intn(100_000_000))
+	tp.PreDelta = []int64{-365 * 86400, -3600, -2, -1, 0, 1, 2, 3600, 365 * 86400, 30 * 86400}[rt.Intn(10)]
 	return tp
 }
 
